@@ -217,9 +217,11 @@ pub fn h264_frame(r: &mut Rng, kind: FrameKind, body_len: usize, decorate: bool)
     if decorate && r.chance(1, 6) {
         // nal_ref_idc 1 or 2 instead of 3 on parameter sets and reference slices (hardware
         // encoders do that; only 0 is forbidden for them)
-        let idc = r.range(1, 2) as u8;
+        // (drawn per unit: a first parameter set with nal_ref_idc 1 may be followed by a later,
+        // differing one with 3 - the first one is still the configuration)
         for n in nals.iter_mut() {
-            if !n.is_empty() && matches!(n[0] & 0x1f, 5 | 7 | 8) {
+            if !n.is_empty() && matches!(n[0] & 0x1f, 5 | 7 | 8) && r.chance(2, 3) {
+                let idc = r.range(1, 3) as u8;
                 n[0] = (n[0] & 0x9f) | (idc << 5);
             }
         }
